@@ -46,6 +46,11 @@ pub struct Case {
     pub base_kind: u8,
     pub asym_kind: u8,
     pub big_corr: bool,
+    /// for one-step exchanges, F(k) delivers a stray Follow_Up from the parent carrying the same
+    /// sequence id but another time (e.g. left over from a lost two-step Sync); it belongs to no
+    /// exchange and must never be combined with the one-step Sync
+    #[serde(default)]
+    pub stray_fu: bool,
 }
 
 struct Ex {
@@ -168,12 +173,16 @@ pub fn run_case(rep: &mut Report, case: &Case, verbose: bool) {
                 let k = k as usize % 3;
                 let from_parent = matches!(ev, E::F(_));
                 let ex = &mut exs[k];
-                if !ex.two_step && from_parent {
+                if !ex.two_step && from_parent && !case.stray_fu {
                     // a Follow_Up for a one-step exchange does not exist; deliver nothing
                     continue;
                 }
                 let src = if from_parent { &parent.src } else { &other.src };
-                let m = if from_parent {
+                let m = if !ex.two_step && from_parent {
+                    rep.ev("stray_follow_up_for_one_step_sync");
+                    let stray = ex.t1.to_units() + SEC / 1000 + rng.gen_range(0..(1u128 << 44));
+                    src.follow_up(ex.seq, units_to_ts(stray), rand_corr(&mut rng, false))
+                } else if from_parent {
                     ex.fu_delivered = true;
                     src.follow_up(ex.seq, ex.t1, ex.corr_f)
                 } else {
@@ -391,7 +400,7 @@ fn full_alphabet() -> Vec<E> {
 
 pub fn run(rep: &mut Report, tier: &str, seed: u64, shard: (u32, u32), replay: Option<&str>) {
     rep.rule = "event scripts over the messages of three Sync exchanges (two-step / one-step / mixed) and Delay_Req exchanges of a slave port: every sequence up to a length bound over the six Sync/Follow_Up messages is enumerated, delay events, foreign-master copies, late/duplicate/other-requester responses are interleaved by seeded sampling; unique random timestamps and corrections per exchange; distinct = distinct (script, parameters); non-trivial = at least one measurement reached the filter".into();
-    rep.require(&["sync_measurement", "delay_measurement"]);
+    rep.require(&["sync_measurement", "delay_measurement", "stray_follow_up_for_one_step_sync"]);
     if let Some(path) = replay {
         let v: serde_json::Value = serde_json::from_str(&std::fs::read_to_string(path).unwrap()).unwrap();
         if let Ok(c) = serde_json::from_value::<Case>(v["case"].clone()) {
@@ -446,6 +455,7 @@ pub fn run(rep: &mut Report, tier: &str, seed: u64, shard: (u32, u32), replay: O
                 base_kind: (code / 12 % 5) as u8,
                 asym_kind: (code / 60 % 3) as u8,
                 big_corr: false,
+                stray_fu: variant != 0,
             };
             count(rep, &case);
             enumerated += 1;
@@ -479,6 +489,7 @@ pub fn run(rep: &mut Report, tier: &str, seed: u64, shard: (u32, u32), replay: O
             base_kind: rng.gen_range(0..5),
             asym_kind: rng.gen_range(0..3),
             big_corr: rng.gen_bool(0.3),
+            stray_fu: rng.gen_bool(0.5),
         };
         if i <= 2 {
             rep.sample(serde_json::to_value(&case).unwrap());
